@@ -307,11 +307,57 @@ def literal_lemmas(ctx, q, S, rp):
             ("selector-choice", lambda: selector_choice(ctx, S)), ("statics", lambda: statics(ctx, S)), ("assembler-widths", lambda: assembler_widths(ctx, q)),
             ("every-instruction-is-tracked", lambda: every_instruction_is_tracked(ctx, S, rp)), ("call-sites", lambda: call_sites(ctx, q, S, rp)),
             ("tracker-histories", lambda: tracker_histories(ctx, q, S, rp))]
+    n_inc = len(ctx.inconclusive)
     for name, leg in legs:
         try:
             leg()
         except (mir.Unsupported, sym.Unsupported) as ex:
             ctx.ob("%s/encodable" % name, None, "not encodable: %s" % str(ex)[:300])
+    if len(ctx.inconclusive) > n_inc:
+        native_width_battery(ctx, rp)
+
+
+def native_width_battery(ctx, rp):
+    """Fallback when a leg could not be encoded (the tracker or parse_literal was rewritten beyond mirsym's models): the check
+    stays inconclusive, but the width rule is probed on the compiled crate — type ids across the whole id range (small, around
+    2^16, around the 0x3fffff id-bound limit, 2^31, 2^32-1) x int/float x every width class x the three literal consumers. A
+    probe that deviates from the property's width rule is a concrete counterexample on the real code and is reported."""
+    le = c03.le
+    ids = [1, 2, 255, 256, 0xffff, 0x10000, 0x3ffffe, 0x3fffff, 0x400000, 0x400001, 0x7fffffff, 0x80000000, 0xfffffffe]
+    n = 0
+    for tid in ids:
+        vid, lbl = (tid - 1) if tid > 1000 else (tid + 1), 7
+        for isfloat in (False, True):
+            for width in ((8, 16, 32, 64, 24, 128) if not isfloat else (16, 32, 64, 8, 128)):
+                decl = (le(3 << 16 | 22) + le(tid) + le(width)) if isfloat else (le(4 << 16 | 21) + le(tid) + le(width) + le(0))
+                words = (1 if width in ((16, 32) if isfloat else (8, 16, 32)) else 2 if width == 64 else None)
+                lit = le(0x11111111) + (le(0x22222222) if words == 2 else "")
+                nlit = words or 1
+                if words is None:
+                    lit = le(0x11111111)
+                for consumer in ("Constant", "SpecConstant") + (() if isfloat else ("Switch",)):
+                    if consumer == "Switch":
+                        body = decl + le((3 + nlit) << 16 | 43) + le(tid) + le(vid) + lit + le((3 + nlit + 1) << 16 | 251) + le(vid) + le(lbl) + lit + le(lbl)
+                    else:
+                        body = decl + le((3 + nlit) << 16 | (43 if consumer == "Constant" else 50)) + le(tid) + le(vid) + lit
+                    cmd = "parse_script %s C" % (c03.HEADER + body)
+                    real = rp.ask(cmd)
+                    n += 1
+                    res = str(real.get("result"))
+                    last = (real.get("events") or ["", ""])[-2] if len(real.get("events") or []) >= 2 else ""
+                    if "panic" in real:
+                        bad = "panics: %s" % real["panic"]
+                    elif words is None:
+                        bad = None if "TypeUnsupported" in res else "a literal of an unsupported %d-bit %s type is not refused: %s" % (width, "float" if isfloat else "int", res[:120])
+                    else:
+                        want = "LiteralBit64(2459565876208275729)" if words == 2 else "LiteralBit32(286331153)"
+                        bad = None if (res == "Ok" and want in last) else "the %d-bit literal of Op%s is not read as %s: %s %r" % (width, consumer, want, res[:120], last[:160])
+                    if bad:
+                        ctx.ob("literal-width/native-battery", False, bad)
+                        ctx.violation("literal-width/native/%s/%s-width-%d" % (consumer, "float" if isfloat else "int", width),
+                                      "type id %#x: %s" % (tid, bad), {"cmd": cmd, "real": real})
+                        return
+    ctx.extra["native_width_battery_requests"] = n
 
 
 def parse_literal_leg(ctx, q, S, rp):
@@ -573,13 +619,13 @@ def selector_choice(ctx, S):
         words = c03.HEADER + le(4 << 16 | 21) + le(1) + le(64) + le(0) + le(5 << 16 | 43) + le(1) + le(2) + le(7) + le(0)
         if opname == "Switch":
             words += le(6 << 16 | 251) + le(2) + le(9) + le(0x11111111) + le(0x22222222) + le(8)
-            expect = "LiteralBit64(2459565876494606865)"
+            expect = "LiteralBit64(2459565876208275729)"
         elif opname == "Constant":
             words += le(5 << 16 | 43) + le(1) + le(3) + le(0x11111111) + le(0x22222222)
-            expect = "LiteralBit64(2459565876494606865)"
+            expect = "LiteralBit64(2459565876208275729)"
         else:
             words += le(5 << 16 | 44) + le(1) + le(3) + le(0x11111111) + le(0x22222222)
-            expect = "LiteralBit64(2459565876494606865)"
+            expect = "LiteralBit64(2459565876208275729)"
         rp = Replay()
         real = rp.ask("parse_script %s C" % words)
         rp.close()
